@@ -187,6 +187,14 @@ void CDNS::CdnsDecoder::read_break()
 
 void CDNS::CdnsDecoder::skip_item()
 {
+    skip_item(0);
+}
+
+void CDNS::CdnsDecoder::skip_item(unsigned depth)
+{
+    if (depth > MAX_SKIP_NESTING)
+        throw CdnsDecoderException("CBOR item is nested too deeply");
+
     CborType cbor_type;
     uint8_t item_length;
     read_cbor_type(cbor_type, item_length);
@@ -202,7 +210,7 @@ void CDNS::CdnsDecoder::skip_item()
             read_int(item_length);
             // A tag is followed by the data item it applies to
             if (cbor_type == CborType::TAG)
-                skip_item();
+                skip_item(depth + 1);
             break;
 
         case CborType::SIMPLE:
@@ -234,17 +242,17 @@ void CDNS::CdnsDecoder::skip_item()
                         m_p++;
                         break;
                     }
-                    skip_item();
+                    skip_item(depth + 1);
                     if (cbor_type == CborType::MAP)
-                        skip_item();
+                        skip_item(depth + 1);
                 }
             }
             else {
                 uint64_t item_count = read_int(item_length);
                 for (unsigned i = 0; i < item_count; i++) {
-                    skip_item();
+                    skip_item(depth + 1);
                     if (cbor_type == CborType::MAP)
-                        skip_item();
+                        skip_item(depth + 1);
                 }
             }
             break;
